@@ -640,6 +640,11 @@ func (r *c15Run) randomHtlc(c int, ht int) *c15Ev {
 		margin = 1
 	}
 	ev.Exp = ht + need + margin
+	// an HTLC that has already expired: one, ten or ninety blocks below the
+	// current height (re-forwarded after downtime / malicious peer)
+	if rng.Intn(7) == 0 {
+		ev.Exp = ht - []int{1, 10, 90}[rng.Intn(3)]
+	}
 	likely := rng.Intn(10) < 7
 	switch {
 	case kind == "keysend" && rng.Intn(3) > 0:
